@@ -1593,12 +1593,18 @@ func (env *LEnv) funCall(ctx context.Context, fun, args *LVal) *LVal {
 
 	if npop > 0 {
 		verifOnTailElide(env.Runtime, npop)
-		return markTailRec(npop, fun, args, env.loc)
+		return markTailRec(npop, fun, args, env.loc, env.Runtime.Package)
 	}
 
 	locSaved := false
+	var resumePkg *Package
 callf:
-	r := env.call(ctx, fun, args)
+	var r *LVal
+	if resumePkg != nil && resumePkg != env.Runtime.Package && fun.Builtin() != nil {
+		r = env.callInPackage(ctx, fun, args, resumePkg)
+	} else {
+		r = env.call(ctx, fun, args)
+	}
 	if r == nil {
 		return env.Errorf("internal error: function %s returned nil", env.GetFunName(fun))
 	}
@@ -1621,6 +1627,7 @@ callf:
 				return lerr
 			}
 			fun, args = extractMarkTailRec(r)
+			resumePkg = r.tailRecPackage()
 			// The reused frame starts the callee's body afresh: only its last
 			// form is in tail position.  Leaving Terminal set from the previous
 			// turn made a call in a NON-final body form of a later turn look
@@ -1647,6 +1654,21 @@ callf:
 		d.OnFunReturn(env, fun, r)
 	}
 	return r
+}
+
+// callInPackage calls the builtin fun, resumed from an eliminated tail call,
+// with the package current that was current where the tail call was made.  The
+// frame that resumes a tail call keeps running in the package of ITS caller,
+// but a builtin works in the current package: when g of package b ends in
+// (funcall 'helper x) and was itself reached by a tail (funcall 'b:g x) from a
+// function of package a, the two funcall frames collapse, and without the
+// switch 'helper was looked up in a (and (funcall 'set 'v 1) bound a:v).
+// Functions defined in lisp switch to their own package in call.
+func (env *LEnv) callInPackage(ctx context.Context, fun, args *LVal, pkg *Package) *LVal {
+	outer := env.Runtime.Package
+	env.Runtime.Package = pkg
+	defer func() { env.Runtime.Package = outer }()
+	return env.call(ctx, fun, args)
 }
 
 func extractMarkTailRec(mark *LVal) (fun, args *LVal) {
